@@ -948,3 +948,16 @@ fn start_watchdog(prop: &str, set: &SubjectSet, args: &Args, cfg: &BuildCfg) {
         }
     });
 }
+
+/// Entry point for the libFuzzer target: every property judged from a compiled core-family subject
+/// on one input. Returns the findings (any property).
+pub fn fuzz_check(s: &dyn Subject, sd: &SubjectDef, p: &Prepared, input: &[u8], with_partial: bool) -> Vec<Finding> {
+    let mut out = Vec::new();
+    for prop in ["C01", "C02", "C03", "C04", "C05", "C12", "C20"] {
+        out.extend(check_input(prop, s, sd, p, input, None, 0));
+    }
+    if with_partial && input.len() <= 24 {
+        out.extend(check_input("C07", s, sd, p, input, None, 0));
+    }
+    out
+}
